@@ -141,8 +141,32 @@ pub struct Case {
     extreme_pp: u8,
 }
 
+/// A native script of any shape: signatures by known and unknown keys, all / any / n-of-k with n at and beyond the
+/// ends of 0..=k (0, k, k+1, 2^32-1), time locks, nested up to 3 deep.
+fn native_script() -> impl Strategy<Value = Vec<u8>> {
+    let leaf = prop_oneof![
+        (0u8..8).prop_map(|k| cx::array(vec![cx::uint(0), cx::bytes(&forge::key(k).hash)])),
+        any::<u8>().prop_map(|b| cx::array(vec![cx::uint(0), cx::bytes(&[b; 28])])),
+        prop_oneof![Just(0u64), Just(u64::MAX), any::<u64>()].prop_map(|s| cx::array(vec![cx::uint(4), cx::uint(s)])),
+        prop_oneof![Just(0u64), Just(u64::MAX), any::<u64>()].prop_map(|s| cx::array(vec![cx::uint(5), cx::uint(s)])),
+    ];
+    leaf.prop_recursive(3, 12, 4, |inner| {
+        prop_oneof![
+            prop::collection::vec(inner.clone(), 0..4).prop_map(|v| cx::array(vec![cx::uint(1), cx::array(v)])),
+            prop::collection::vec(inner.clone(), 0..4).prop_map(|v| cx::array(vec![cx::uint(2), cx::array(v)])),
+            (prop::collection::vec(inner, 0..4), 0u8..5).prop_map(|(v, sel)| {
+                let k = v.len() as u64;
+                let n = [0u64, k, k + 1, 1, u32::MAX as u64][sel as usize % 5];
+                cx::array(vec![cx::uint(3), cx::uint(n), cx::array(v)])
+            }),
+        ]
+    })
+    .prop_map(|n| cx::write(&n))
+}
+
 fn tweaks() -> impl Strategy<Value = Tweaks> {
     prop_oneof![
+        3 => prop::collection::vec(native_script(), 1..3).prop_map(|v| Tweaks { extra_native_scripts: v, ..Default::default() }),
         4 => Just(Tweaks::default()),
         2 => prop_oneof![Just(u64::MAX), Just(u64::MAX / 100), Just(1u64 << 63), Just(0u64), any::<u64>()].prop_map(|f| Tweaks { fee_override: Some(f), ..Default::default() }),
         1 => (0u8..3, 0u8..6, prop_oneof![Just(u64::MAX), Just(1u64 << 63), Just((1u64 << 63) - 1)]).prop_map(|(p, n, q)| Tweaks { phantom_assets: vec![(p, n, q)], ..Default::default() }),
@@ -226,6 +250,9 @@ fn check(c: &Case, obs: &mut Obs) -> Result<(), Fail> {
     let env = pp::env(era, &t);
     // the call must return; a panic is caught by the runner and reported with its root-cause signature
     let r = run::validate(era, &tx, &f.utxos, &env);
+    if !c.tw.extra_native_scripts.is_empty() && !matches!(r, run::Outcome::Undecodable(_)) {
+        obs.class(format!("{}:extra-native-scripts", era.name()));
+    }
     if let (Some(q), Some(p), false) = (c.tw.collateral_return_asset, c.spec.plutus.as_ref(), matches!(r, run::Outcome::Undecodable(_))) {
         if era.babbage_plus() && p.collateral_return {
             obs.class(format!("{}:collateral-return-with-{}-asset:{}", era.name(), if q == 0 { "zero" } else { "an" }, if c.spec.legacy_outputs { "legacy-layout" } else { "map-layout" }));
